@@ -3,11 +3,14 @@
    built in TelstateDataSource.__init__, from_url's kwargs merge, _upgrade_flags / _upgrade_chunk_info,
    _align_chunk_info; and of katsdptelstate views (ordered prefix list, first prefix that defines a key). *)
 From Coq Require Import ZArith List Bool String Ascii.
-From KV Require Import Base.Sx Base.Str.
+From KV Require Import Base.Sx Base.Str Gen.Generated.
 Import ListNotations.
 Open Scope string_scope.
 
-Definition sep : string := "_".
+(* Constants and the order of the view() calls come from katdal/datasources.py (and the separator from the
+   installed katsdptelstate) through the translator items of harness/vh/items/c18.py:
+   ts_sep ts_inherit_key vcs_steps l0_* fl_* ds_* url_keyword_wins. *)
+Definition sep : string := ts_sep.
 Definition joinp (a b : string) : string := a ++ sep ++ b.
 
 (* ---------- store and views ---------- *)
@@ -35,7 +38,7 @@ Fixpoint lookup (st : store) (prefixes : list string) (k : string) : option Z :=
 (* inherit chain: telstate.view(stream, exclusive=True).get('inherit'); value ids are mapped to stream names
    by [names]; fuel bounds the (possibly cyclic) chain *)
 Definition inherit_of (st : store) (names : Z -> option string) (stream : string) : option string :=
-  match find_key st (stream ++ sep ++ "inherit") with
+  match find_key st (stream ++ sep ++ ts_inherit_key) with
   | Some e => names (e_val e)
   | None => None
   end.
@@ -49,16 +52,25 @@ Fixpoint chain (st : store) (names : Z -> option string) (fuel : nat) (stream : 
            end
   end.
 
-(* streams = [stream; inh1; inh2 ...];  code: streams.reverse(); view each; view cb; view cb_stream each *)
+(* streams = [stream; inh1; inh2 ...];  the statements after the inherit loop are GENERATED (vcs_steps); in the
+   pinned code: streams.reverse(); view each; view cb; view cb_stream each.  [base] = prefixes of the telstate
+   the views are stacked on ([""] for the root telstate, the L0 view for the candidates of _upgrade_flags). *)
+Definition vcs_run (cb : string) (st : list string * list string) (s : vcs_step) : list string * list string :=
+  match s with
+  | VRev => (rev (fst st), snd st)
+  | VStreams r => (fst st, fold_left view (if r then rev (fst st) else fst st) (snd st))
+  | VCb => (fst st, view (snd st) cb)
+  | VCbStreams r => (fst st, fold_left (fun v s => view v (joinp cb s)) (if r then rev (fst st) else fst st) (snd st))
+  end.
+Definition view_capture_stream_on (base : list string) (cb : string) (streams : list string) : list string :=
+  snd (fold_left (vcs_run cb) vcs_steps (streams, base)).
 Definition view_capture_stream (cb : string) (streams : list string) : list string :=
-  let rs := rev streams in
-  let v1 := fold_left view rs [""] in
-  let v2 := view v1 cb in
-  fold_left (fun v s => view v (joinp cb s)) rs v2.
+  view_capture_stream_on [""] cb streams.
 
 (* SPEC: most specific first *)
-Definition spec_prefixes (cb : string) (streams : list string) : list string :=
-  map (fun s => joinp cb s ++ sep) streams ++ [cb ++ sep] ++ map (fun s => s ++ sep) streams ++ [""].
+Definition spec_prefixes_on (base : list string) (cb : string) (streams : list string) : list string :=
+  map (fun s => joinp cb s ++ sep) streams ++ [cb ++ sep] ++ map (fun s => s ++ sep) streams ++ base.
+Definition spec_prefixes (cb : string) (streams : list string) : list string := spec_prefixes_on [""] cb streams.
 
 (* ---------- _shorten_key and the sensor table ---------- *)
 Definition drop (n : nat) (s : string) : string := substring n (String.length s - n) s.
@@ -132,20 +144,22 @@ Fixpoint spec_sensor (st : store) (prefixes : list string) (name : string) : opt
   end.
 
 (* ---------- capture block / stream name resolution ---------- *)
-(* from_url: url_kwargs.update(kwargs): keyword beats URL query; view_l0_capture_stream: empty -> telstate *)
+(* from_url: url_kwargs.update(kwargs): keyword beats URL query (generated: url_keyword_wins);
+   view_l0_capture_stream: `if not x` -> the value recorded in the file (generated: l0_empty_falls_back) *)
 Definition resolve_id (kw url file : option string) : option string :=
-  let merged := match kw with Some k => Some k | None => url end in
+  let merged := if url_keyword_wins then match kw with Some k => Some k | None => url end
+                else match url with Some u => Some u | None => kw end in
   match merged with
-  | Some s => if String.eqb s "" then file else Some s
+  | Some s => if (l0_empty_falls_back && String.eqb s "")%bool then file else Some s
   | None => file
   end.
 
 Inductive res (A : Type) := Ok (a : A) | Err (code : Z).
 Arguments Ok {A} a. Arguments Err {A} code.
 
-(* stream_type check: view.get('stream_type', 'unknown') must be 'sdp.vis' *)
+(* stream_type check: view.get(l0_type_key, l0_type_default) must be l0_expected_type ('sdp.vis') *)
 Definition check_stream_type (ty : option string) : bool :=
-  match ty with Some t => String.eqb t "sdp.vis" | None => false end.
+  String.eqb (match ty with Some t => t | None => l0_type_default end) l0_expected_type.
 
 (* ---------- flag stream upgrade ---------- *)
 (* a candidate archived stream: its stream_type, src_streams, flags shape (dumps :: rest) and an id *)
@@ -156,7 +170,7 @@ Definition zs_eqb (a b : list Z) : bool :=
   (Nat.eqb (List.length a) (List.length b) && forallb (fun p => Z.eqb (fst p) (snd p)) (combine a b))%bool.
 
 Definition is_flag_source (stream : string) (f : fstream) : bool :=
-  (match f_type f with Some t => String.eqb t "sdp.flags" | None => false end
+  (match f_type f with Some t => String.eqb t fl_type | None => false end
    && mem_string stream (f_src f))%bool.
 
 (* _upgrade_flags: for s in archived: if type/sources match: shape[1:] check then replace *)
@@ -190,6 +204,131 @@ Definition align_one (maxd : Z) (chunks : list Z) : list Z :=
 Definition align_chunk_info (arrays : list (list Z)) : list (list Z) :=
   let maxd := zmax_list (map dumps_of arrays) in map (align_one maxd) arrays.
 
+(* ---------- attributes of the archived streams, read through telstate views ---------- *)
+(* The value of an immutable key is identified by its index in a value table; only the shapes the code looks at
+   are distinguished: a string, a list of strings, a chunk_info (dumps and channel/baseline shape of its 'flags'
+   array; all arrays of one stream have the same number of dumps), anything else. *)
+Inductive aval := AStr (s : string) | AStrs (l : list string) | AInfo (dumps : Z) (rest : list Z) | AOther.
+Definition vtable := list aval.
+
+Definition aget (st : store) (vals : vtable) (ps : list string) (k : string) : option (Z * aval) :=
+  match lookup st ps k with
+  | Some id => match nth_error vals (Z.to_nat id) with Some v => Some (id, v) | None => None end
+  | None => None
+  end.
+Definition astr (o : option (Z * aval)) : option string := match o with Some (_, AStr s) => Some s | _ => None end.
+Definition astrs (o : option (Z * aval)) : list string := match o with Some (_, AStrs l) => l | _ => [] end.
+Definition names_of_vals (vals : vtable) (z : Z) : option string :=
+  match nth_error vals (Z.to_nat z) with Some (AStr s) => Some s | _ => None end.
+Definition chain_of (st : store) (vals : vtable) (stream : string) : option (list string) :=
+  chain st (names_of_vals vals) (S (List.length st)) stream.
+
+(* _upgrade_flags: telstate_cs = view_capture_stream(telstate, cb, s) stacked on the view of the opened stream
+   [base]; stream_type, src_streams and chunk_info of the candidate are read through that view
+   (keys generated: fl_type_key fl_src_key fl_chunk_info_key) *)
+Definition fstream_of_with (prefixes_on : list string -> string -> list string -> list string)
+    (st : store) (vals : vtable) (base : list string) (cb s : string) : option fstream :=
+  match chain_of st vals s with
+  | None => None
+  | Some streams =>
+      let ps := prefixes_on base cb streams in
+      match aget st vals ps fl_chunk_info_key with
+      | Some (id, AInfo d rest) =>
+          Some (mkF id (astr (aget st vals ps fl_type_key)) (astrs (aget st vals ps fl_src_key)) d rest)
+      | _ => None
+      end
+  end.
+Definition fstream_of := fstream_of_with view_capture_stream_on.
+Fixpoint all_some {A} (l : list (option A)) : option (list A) :=
+  match l with
+  | [] => Some []
+  | Some a :: t => option_map (cons a) (all_some t)
+  | None :: _ => None
+  end.
+
+(* ---------- how the data set is opened ---------- *)
+(* with / without a chunk store, upgrade_flags keyword (None = default), explicit timestamps (their number) *)
+Record omode := mkMode { m_store : bool; m_upgrade : option bool; m_ts : option Z }.
+(* what comes out: number of timestamps; if there is data: its number of dumps and the id of the chunk info its
+   flags come from *)
+Record opened := mkOpened { o_ts : Z; o_data : option (Z * Z) }.
+Definition upgrade_on (m : omode) : bool := match m_upgrade m with Some b => b | None => ds_upgrade_default end.
+Definition has_ts (m : omode) : bool := match m_ts m with Some _ => true | None => false end.
+
+(* TelstateDataSource.__init__: chunk info is prepared (upgrade + align) when the generated condition
+   ds_reads_chunk_info holds; the data object is built from it iff there is a chunk store; timestamps are
+   synthesised from the aligned number of dumps unless given.  Err 4 = chunk_info unbound (cannot happen with the
+   pinned condition, see open_source_total). *)
+Definition open_source (m : omode) (stream : string) (cur : cinfo) (archived : list fstream) : res opened :=
+  if ds_reads_chunk_info (m_store m) (has_ts m) then
+    match (if upgrade_on m then upgrade_flags stream cur archived else Ok cur) with
+    | Err e => Err e
+    | Ok c =>
+        let aligned := align_chunk_info [[c_dumps cur]; [c_dumps c]] in
+        let n := dumps_of (nth 0 aligned []) in
+        Ok (mkOpened (match m_ts m with Some k => k | None => n end)
+                     (if m_store m then Some (dumps_of (nth 1 aligned []), c_id c) else None))
+    end
+  else if m_store m then Err 4
+  else match m_ts m with Some k => Ok (mkOpened k None) | None => Err 4 end.
+
+(* SPEC: unless nothing at all is derived from the streams (no data AND timestamps given), the flag streams are
+   consulted in every way of opening: incompatible = error; the data set spans the longer of the opened stream
+   and the flag stream that replaces its flags *)
+Definition spec_open (m : omode) (stream : string) (cur : cinfo) (archived : list fstream) : res opened :=
+  match m_store m, m_ts m with
+  | false, Some k => Ok (mkOpened k None)
+  | _, _ =>
+      match (if upgrade_on m then spec_upgrade stream cur archived else Ok cur) with
+      | Err e => Err e
+      | Ok c =>
+          let n := Z.max (c_dumps cur) (c_dumps c) in
+          Ok (mkOpened (match m_ts m with Some k => k | None => n end)
+                       (if m_store m then Some (n, c_id c) else None))
+      end
+  end.
+
+(* the whole path from the telstate: view of the opened stream, stream type check, own chunk info, candidates
+   named by fl_archived_key.  Err 1/3 = ValueError, 2 = KeyError, 9 = outside the model (cyclic inherit chain,
+   candidate without any chunk info) *)
+Definition open_telstate_with (prefixes_on : list string -> string -> list string -> list string)
+    (opener : omode -> string -> cinfo -> list fstream -> res opened)
+    (m : omode) (st : store) (vals : vtable) (cb stream : string) : res opened :=
+  match chain_of st vals stream with
+  | None => Err 9
+  | Some streams =>
+      let ps := prefixes_on [""] cb streams in
+      if negb (check_stream_type (astr (aget st vals ps l0_type_key))) then Err 3
+      else if ds_reads_chunk_info (m_store m) (has_ts m) then
+        match aget st vals ps ds_chunk_info_key with
+        | Some (id, AInfo d rest) =>
+            let fs := if upgrade_on m then
+                        all_some (map (fstream_of_with prefixes_on st vals ps cb)
+                                      (astrs (aget st vals ps fl_archived_key)))
+                      else Some [] in
+            match fs with
+            | Some fs => opener m stream (mkC id d rest) fs
+            | None => Err 9
+            end
+        | _ => Err 2
+        end
+      else opener m stream (mkC 0 0 []) []
+  end.
+Definition open_telstate := open_telstate_with view_capture_stream_on open_source.
+Definition spec_open_telstate := open_telstate_with spec_prefixes_on spec_open.
+
+(* from_url / katdal.open: capture block and stream from keyword, URL query or the file (root telstate) *)
+Definition open_url_with (ot : omode -> store -> vtable -> string -> string -> res opened)
+    (m : omode) (st : store) (vals : vtable) (kw_cb url_cb kw_sn url_sn : option string)
+    : res (string * string * opened) :=
+  let file k := astr (aget st vals [""] k) in
+  match resolve_id kw_cb url_cb (file l0_cbid_key), resolve_id kw_sn url_sn (file l0_stream_key) with
+  | Some cb, Some sn => match ot m st vals cb sn with Ok o => Ok (cb, sn, o) | Err e => Err e end
+  | _, _ => Err 3
+  end.
+Definition open_url := open_url_with open_telstate.
+Definition spec_open_url := open_url_with spec_open_telstate.
+
 (* ---------- wire ---------- *)
 Definition to_entry (x : sx) : entry :=
   match x with L [k; m; I v] => mkEntry (to_string k) (to_bool m) v | _ => mkEntry "" false 0 end.
@@ -206,13 +345,36 @@ Definition to_fstream (x : sx) : fstream :=
 Definition of_res_cinfo (r : res cinfo) : sx :=
   match r with Ok c => L [I (c_id c); I (c_dumps c); of_Zs (c_rest c)] | Err e => L [I (-1); I e] end.
 
+Definition to_aval (x : sx) : aval :=
+  match x with
+  | L [I 0; s] => AStr (to_string s)
+  | L [I 1; l] => AStrs (to_strings l)
+  | L [I 2; I d; rest] => AInfo d (to_Zs rest)
+  | _ => AOther
+  end.
+Definition to_optbool (x : sx) : option bool := match x with L [b] => Some (to_bool b) | _ => None end.
+Definition to_mode (x : sx) : omode :=
+  match x with L [s; u; t] => mkMode (to_bool s) (to_optbool u) (to_optZ t) | _ => mkMode false None None end.
+Definition of_opened (o : opened) : list sx :=
+  [I (o_ts o); match o_data o with Some (n, i) => L [I n; I i] | None => L [] end].
+Definition of_res_url (r : res (string * string * opened)) : sx :=
+  match r with
+  | Ok (cb, sn, o) => L (I 0 :: of_string cb :: of_string sn :: of_opened o)
+  | Err e => L [I (-1); I e]
+  end.
+Definition of_res_opened (r : res opened) : sx :=
+  match r with Ok o => L (I 0 :: of_opened o) | Err e => L [I (-1); I e] end.
+
 (* (1 store names cb stream)        -> () if chain cyclic | (model_prefixes spec_prefixes)
    (2 store prefixes key)           -> lookup
    (3 store prefixes names)         -> list of (model sensor key, spec sensor key, pre-fix model key) per requested name
    (4 kw url file)                  -> resolved id
    (5 type)                         -> stream type accepted?
    (6 stream (id dumps rest) archived) -> (model spec)
-   (7 arrays)                       -> aligned chunks *)
+   (7 arrays)                       -> aligned chunks
+   (8 mode store vals kw_cb url_cb kw_sn url_sn) -> (model spec) of opening from the telstate; mode = (store? (upgrade)? (n_ts)?)
+   (9 mode stream (id dumps rest) archived)      -> (model spec) of open_source
+   (10 store vals base cb s)        -> () | (prefixes of the candidate view) *)
 Definition wire_18 (x : sx) : sx :=
   match x with
   | L [I 1; st; names; cb; stream] =>
@@ -233,5 +395,19 @@ Definition wire_18 (x : sx) : sx :=
       let cur := mkC i d (to_Zs rest) in let ar := map to_fstream (to_list archived) in
       L [of_res_cinfo (upgrade_flags (to_string stream) cur ar); of_res_cinfo (spec_upgrade (to_string stream) cur ar)]
   | L [I 7; arrays] => L (map of_Zs (align_chunk_info (map to_Zs (to_list arrays))))
+  | L [I 8; m; st; vals; kwcb; urlcb; kwsn; urlsn] =>
+      let st := to_store st in let vals := map to_aval (to_list vals) in let m := to_mode m in
+      L [of_res_url (open_url m st vals (to_optstring kwcb) (to_optstring urlcb) (to_optstring kwsn) (to_optstring urlsn));
+         of_res_url (spec_open_url m st vals (to_optstring kwcb) (to_optstring urlcb) (to_optstring kwsn) (to_optstring urlsn))]
+  | L [I 9; m; stream; L [I i; I d; rest]; archived] =>
+      let cur := mkC i d (to_Zs rest) in let ar := map to_fstream (to_list archived) in
+      L [of_res_opened (open_source (to_mode m) (to_string stream) cur ar);
+         of_res_opened (spec_open (to_mode m) (to_string stream) cur ar)]
+  | L [I 10; st; vals; base; cb; s] =>
+      let st := to_store st in let vals := map to_aval (to_list vals) in
+      match chain_of st vals (to_string s) with
+      | Some ss => L [L (map of_string (view_capture_stream_on (to_strings base) (to_string cb) ss))]
+      | None => L []
+      end
   | _ => sx_err
   end.
